@@ -1528,7 +1528,9 @@ fn run_glue<'s>(ctx: &mut Ctx, case: u64, cols: &[Col], gvals: &[V], glue: &mut 
             if let Ok(bytes) = OwnedValue::build_record_from_values(&ovs2, gs) {
                 let mut st = Stats::default();
                 check_view(&mut f2, &bytes, gs, cols, &g2, Mode::Glue, 0, &mut st);
-                f2.is_empty()
+                attribute_causes(&mut f2, &bytes, cols);
+                // failures with another established cause do not speak against this one
+                f2.iter().all(|f| f.sig.ends_with("/record_without_payload"))
             } else {
                 false
             }
@@ -1554,7 +1556,7 @@ fn run_oversize(ctx: &mut Ctx, rng: &mut Rng, case: u64) {
     if rng.chance(1, 2) {
         cols.insert(0, gen_col(rng, DataType::Int4, 0));
     }
-    let total = match rng.below(4) {
+    let total = match if cfg!(miri) { 0 } else { rng.below(4) } {
         0 => 65536,
         1 => 65536 + rng.usize(1, 64),
         2 => 131072,
@@ -1648,7 +1650,7 @@ pub fn run(a: &Args) -> i32 {
     );
     let mut rng = Rng::derive(a.seed, 31);
     let quick = ctx.quick();
-    let nschemas: u64 = if miri { 70 } else if quick { 30_000 } else { 400_000 };
+    let nschemas: u64 = if miri { 40 } else if quick { 30_000 } else { 400_000 };
     let mut tot = Stats::default();
     let mut max_record = 0usize;
     let mut class_counts = [0u64; 4];
@@ -1708,7 +1710,7 @@ pub fn run(a: &Args) -> i32 {
     ctx.extra.insert("max_var_bytes_in_a_row".into(), json!(max_record));
 
     // OwnedValue glue on schemas that contain FLOAT4 columns (from_record_column yields Float for them)
-    let nf4: u64 = if miri { 10 } else if quick { 2_000 } else { 20_000 };
+    let nf4: u64 = if miri { 6 } else if quick { 2_000 } else { 20_000 };
     for _ in 0..nf4 {
         ctx.eval();
         let ncols = rng.usize(1, 12);
@@ -1728,14 +1730,14 @@ pub fn run(a: &Args) -> i32 {
     }
     ctx.count("owned_glue_float4_rows", nf4);
 
-    let nover: u64 = if miri { 3 } else if quick { 300 } else { 5_000 };
+    let nover: u64 = if miri { 1 } else if quick { 300 } else { 5_000 };
     for _ in 0..nover {
         run_oversize(&mut ctx, &mut rng, case);
         case += 1;
     }
     ctx.count("oversize_rows", nover);
 
-    let narr: u64 = if miri { 20 } else if quick { 5_000 } else { 100_000 };
+    let narr: u64 = if miri { 8 } else if quick { 5_000 } else { 100_000 };
     for _ in 0..narr {
         run_array_reset(&mut ctx, &mut rng, case);
         case += 1;
